@@ -249,6 +249,14 @@ func Safe[C any, S any](run func(C) (S, error), c C) (st S, err error) {
 	return run(c)
 }
 
+// SafeJ is Safe with the case journalled while it runs (Inflight): a panic on a goroutine of the tested library kills the
+// process, and the journal entry is what lets the driver attribute the death to this case, replay and shrink it.
+func SafeJ[C any, S any](prop, kind string, run func(C) (S, error), c C) (S, error) {
+	done := Inflight(prop, kind, c)
+	defer done()
+	return Safe(run, c)
+}
+
 // Guard converts a panic of run into an error.
 func Guard(run func() error) (err error) {
 	defer func() {
